@@ -88,6 +88,17 @@ def pKind : String → Option SKind
   | "str" => some .str
   | "array" => some .array
   | "other" => some .other
+  | "list" => some .pyList
+  | "tuple" => some .pyTuple
+  | "fraction" => some .fraction
+  | "decimal" => some .decimal
+  | "complex" => some .complex
+  | "none" => some .none
+  | "dict" => some .dict
+  | "npbool" => some .npBool
+  | "array0d" => some .array0d
+  | "npint32" => some .npInt32
+  | "npfloat16" => some .npFloat16
   | _ => none
 
 /-! printing -/
